@@ -249,8 +249,22 @@ def float_strategy():
     )
 
 
-def strat_for(hint):
-    """Strategy of encoded values for a resolved field type hint."""
+def literal_words(hint):
+    """String members of Literal types anywhere inside a type hint."""
+    if get_origin(hint) is Literal:
+        return [a for a in get_args(hint) if isinstance(a, str)]
+    out = []
+    for a in get_args(hint):
+        if a is not Ellipsis:
+            out.extend(literal_words(a))
+    return out
+
+
+def strat_for(hint, words=None):
+    """Strategy of encoded values for a resolved field type hint. String positions are additionally
+    biased to the Literal members occurring in the same (top-level) hint."""
+    if words is None:
+        words = literal_words(hint)
     origin = get_origin(hint)
     if hint is bool:
         return st.booleans().map(enc)
@@ -259,6 +273,8 @@ def strat_for(hint):
     if hint is float:
         return float_strategy().map(enc)
     if hint is str:
+        if words:
+            return st.one_of(str_strategy(), st.sampled_from(words)).map(enc)
         return str_strategy().map(enc)
     if hint is NoneType or hint is None:
         return st.just(["n"])
@@ -267,10 +283,10 @@ def strat_for(hint):
     if origin is tuple:
         args = get_args(hint)
         if len(args) == 2 and args[1] is Ellipsis:
-            return st.lists(strat_for(args[0]), max_size=4).map(lambda l: ["t", l])
+            return st.lists(strat_for(args[0], words), max_size=4).map(lambda l: ["t", l])
         raise NotImplementedError(f"C18 generator: fixed-size tuple option type {hint}")
     if origin in (Union, UnionType):
-        return st.one_of(*[strat_for(a) for a in get_args(hint)])
+        return st.one_of(*[strat_for(a, words) for a in get_args(hint)])
     raise NotImplementedError(f"C18 generator: unsupported option field type {hint!r}")
 
 
@@ -798,24 +814,21 @@ def run_text(h, r, label):
     h.count(cls_label)
     if o2 == "ok":
         h.count(f"text_parsed_len_{min(len(pipe.passes), 5)}")
-    else:
-        h.discard(o2 + ":" + (type(pipe).__name__))
+    elif o2 in ("parse_error", "option_error"):
+        h.discard(o2 + ":" + type(pipe).__name__)
+    elif o2 == "resource":
+        h.inconclusive("resource:" + type(pipe).__name__)
     for sig, detail in res:
         h.mismatch(sig, rec, detail)
-    # what parses is a pipeline: it must print and parse back to itself
+    # what parses is a pipeline: each of its passes must print and parse back to itself
     if o2 == "ok" and pipe.passes:
+        h.count("text_reprinted")
         for p in pipe.passes:
             _, rs, feats = roundtrip_pass(p, type(p), False, "parsed_text")
             if feats & NONTRIVIAL:
                 h.count("text_reprint_nontrivial")
             for sig, detail in rs:
                 h.mismatch(sig, rec, f"from text {s!r}: " + detail)
-        text2 = ",".join(str(p.pipeline_pass_spec()) for p in pipe.passes)
-        o3, pipe2 = run_guarded(lambda: PassPipeline.parse_spec(registry(), text2))
-        if o3 == "ok" and len(pipe2.passes) == len(pipe.passes) and not all(
-                same_obj(a, b) for a, b in zip(pipe.passes, pipe2.passes)):
-            pass  # already attributed to the individual passes above
-        h.count("text_reprinted")
 
 
 def replay(h, recipe):
@@ -1011,7 +1024,7 @@ def checks(h):
             continue
         for incl in (False, True):
             run_pass(h, {"pass": n, "opts": {}, "incl_default": incl}, "pass_no_options")
-    n_pass = h.scale(300, 6000)
+    n_pass = h.scale(300, 3000)
     for i, n in enumerate(with_opts):
         if i % h.nshards != h.shard:
             continue
@@ -1019,17 +1032,17 @@ def checks(h):
 
     # (b) synthetic classes ----------------------------------------------------------------------
     syn = st.sampled_from([c.name for c in SYN_ALL]).flatmap(lambda n: strategies[n])
-    h.hyp("synthetic", syn, lambda r: run_pass(h, r, "synthetic"), h.scale(1200, 30000), 1)
+    h.hyp("synthetic", syn, lambda r: run_pass(h, r, "synthetic"), h.scale(1200, 12000), 1)
 
     # (c) pipelines ------------------------------------------------------------------------------
     pool = with_opts * 3 + [c.name for c in SYN_PASSES] * 3 + without[h.shard::h.nshards]
     one = st.sampled_from(pool).flatmap(lambda n: strategies[n]).map(
         lambda r: {"pass": r["pass"], "opts": r["opts"]})
     pipes = st.lists(one, max_size=5).map(lambda l: {"passes": l})
-    h.hyp("pipeline", pipes, lambda r: run_pipeline(h, r, "pipeline"), h.scale(800, 15000), 2)
+    h.hyp("pipeline", pipes, lambda r: run_pipeline(h, r, "pipeline"), h.scale(800, 8000), 2)
 
     # (d) ArgSpec level --------------------------------------------------------------------------
-    h.hyp("argspec", argspec_strategy(), lambda r: run_argspec(h, r, "argspec"), h.scale(1200, 25000), 3)
+    h.hyp("argspec", argspec_strategy(), lambda r: run_argspec(h, r, "argspec"), h.scale(1200, 12000), 3)
 
     # (e) arbitrary strings ----------------------------------------------------------------------
     keys = sorted({f for n in with_opts for f, _, _ in option_fields(reg[n]())}
@@ -1039,4 +1052,4 @@ def checks(h):
     pass_fields = {n: [(f, t) for f, t, _ in option_fields(reg[n]())] for n in with_opts + without[:6]}
     pass_fields.update({c.name: [(f, t) for f, t, _ in option_fields(c)] for c in SYN_PASSES})
     h.hyp("text", text_strategy(names, keys, pass_fields, strategies).map(lambda s: {"s": s}),
-          lambda r: run_text(h, r, "text"), h.scale(2200, 40000), 4)
+          lambda r: run_text(h, r, "text"), h.scale(2200, 22000), 4)
